@@ -40,10 +40,25 @@ func (t c18Tree) yaml() string {
 	for _, s := range t.sets {
 		fmt.Fprintf(&b, "  - id: %d\n", s.id)
 		if s.scrypt {
-			fmt.Fprintf(&b, "    scryptauth:\n      hmackey: %q\n      cost: %d\n      r: %d\n      p: %d\n", s.key64, s.cost, s.r, s.p)
+			// a zero value is sometimes written out and sometimes left out (same meaning)
+			fmt.Fprintf(&b, "    scryptauth:\n      hmackey: %q\n      cost: %d\n", s.key64, s.cost)
+			if s.r != 0 || s.id%2 == 0 {
+				fmt.Fprintf(&b, "      r: %d\n", s.r)
+			}
+			if s.p != 0 || s.cost%2 == 0 {
+				fmt.Fprintf(&b, "      p: %d\n", s.p)
+			}
 		}
 		if s.argon {
-			fmt.Fprintf(&b, "    argon2id:\n      time: %d\n      memory: %d\n      threads: %d\n      length: %d\n", s.t, s.m, s.th, s.ln)
+			b.WriteString("    argon2id:\n")
+			for _, f := range []struct {
+				k string
+				v uint64
+			}{{"time", s.t}, {"memory", s.m}, {"threads", s.th}, {"length", s.ln}} {
+				if f.v != 0 || (s.id+uint64(len(f.k)))%2 == 0 {
+					fmt.Fprintf(&b, "      %s: %d\n", f.k, f.v)
+				}
+			}
 		}
 	}
 	return b.String()
@@ -140,10 +155,30 @@ func runC18(em *vEmitter, r *vRng) {
 		case 0:
 			doc += "unknownkey: 1\n"
 			term, class = "None", "yaml/unknown-top-key"
-		case 1:
-			if len(t.sets) > 0 && t.sets[0].argon {
-				doc = strings.Replace(doc, "      time:", "      rounds: 3\n      time:", 1)
-				term, class = "None", "yaml/unknown-nested-key"
+		case 1, 6, 7:
+			// an unknown key (or a known one in the wrong case) at a random nesting level: next to
+			// any scalar entry of the document, in any parameter set
+			lines := strings.Split(strings.TrimRight(doc, "\n"), "\n")
+			var cand []int
+			for li, l := range lines {
+				if !strings.HasSuffix(l, ":") && strings.Contains(l, ": ") {
+					cand = append(cand, li)
+				}
+			}
+			if len(cand) > 0 {
+				li := cand[r.intn(len(cand))]
+				l := lines[li]
+				ind := len(l) - len(strings.TrimLeft(l, " "))
+				if strings.HasPrefix(strings.TrimLeft(l, " "), "- ") {
+					ind += 2
+				}
+				key := []string{"zzunknown: 1", "rounds: 3", "R: 16", "Cost: 2", "costs: 14", "Time: 1", "hmacKey: \"AAAA\"", "ID: 9", "Default: 1"}[r.intn(9)]
+				out := append([]string{}, lines[:li+1]...)
+				out = append(out, strings.Repeat(" ", ind)+key)
+				out = append(out, lines[li+1:]...)
+				doc = strings.Join(out, "\n") + "\n"
+				lvl := map[int]string{0: "top", 4: "set", 6: "algorithm-block"}[ind]
+				term, class = "None", "yaml/unknown-key-"+lvl
 			}
 		case 2:
 			doc = strings.Replace(doc, "default: ", "default: x", 1)
@@ -154,8 +189,8 @@ func runC18(em *vEmitter, r *vRng) {
 				term, class = "None", "yaml/negative"
 			}
 		case 4:
-			if len(t.sets) > 0 && t.sets[0].argon {
-				doc = strings.Replace(doc, fmt.Sprintf("threads: %d", t.sets[0].th), "threads: 256", 1)
+			if len(t.sets) > 0 && t.sets[0].argon && strings.Contains(doc, fmt.Sprintf("threads: %d\n", t.sets[0].th)) {
+				doc = strings.Replace(doc, fmt.Sprintf("threads: %d\n", t.sets[0].th), "threads: 256\n", 1)
 				term, class = "None", "yaml/uint8-overflow"
 			}
 		case 5:
